@@ -39,6 +39,7 @@ var curWorld *World
 type baselineFns struct {
 	loaded bool
 	fns    map[string]bool
+	sigs   map[string]string // reviewed function -> package|receiver|exported|signature
 }
 
 func (w *World) loadBaseline(verifDir string) error {
@@ -47,13 +48,14 @@ func (w *World) loadBaseline(verifDir string) error {
 		return err
 	}
 	var doc struct {
-		Functions []string `json:"functions"`
+		Functions map[string]string `json:"functions"`
 	}
 	if err := json.Unmarshal(b, &doc); err != nil {
 		return err
 	}
 	w.base.fns = map[string]bool{}
-	for _, f := range doc.Functions {
+	w.base.sigs = doc.Functions
+	for f := range doc.Functions {
 		w.base.fns[f] = true
 	}
 	if len(w.base.fns) < 500 {
@@ -64,13 +66,12 @@ func (w *World) loadBaseline(verifDir string) error {
 }
 
 func (w *World) dumpFunctions() []byte {
-	var ks []string
-	for k := range w.Funcs {
-		ks = append(ks, k)
+	ks := map[string]string{}
+	for k, fi := range w.Funcs {
+		ks[k] = funcSigKey(fi)
 	}
-	sort.Strings(ks)
 	b, _ := json.MarshalIndent(map[string]any{
-		"_comment":  "functions of gleece on the tree the rules were reviewed against; a function not listed here is analysed as if inlined into its callers (checker/inline.go)",
+		"_comment":  "functions of gleece on the tree the rules were reviewed against (with package|receiver|exported|signature); a function not listed here is analysed as if inlined into its callers, unless it is a listed function under a new name (checker/inline.go)",
 		"functions": ks,
 	}, "", " ")
 	return append(b, '\n')
@@ -861,4 +862,70 @@ func (w *World) takesEffectBefore(fi *FuncInfo, a, b ssa.Instruction) (before, d
 		return pa < pb, true
 	}
 	return false, false
+}
+
+// ---------------------------------------------------------------------------
+// Renamed functions
+//
+// A function of the reviewed tree that is gone, while exactly one new function of the same
+// package has its receiver type and its signature, was renamed: the checker keeps calling
+// it by the name the rules know.
+
+var nameAlias = map[string]string{} // current short name -> reviewed short name
+
+func fnName(full string) string {
+	s := short(full)
+	if a, ok := nameAlias[s]; ok {
+		return a
+	}
+	return s
+}
+
+func funcSigKey(fi *FuncInfo) string {
+	sig := fi.Obj.Type().(*types.Signature)
+	recv := ""
+	if sig.Recv() != nil {
+		recv = short(types.TypeString(sig.Recv().Type(), nil))
+	}
+	exported := "u"
+	if ast.IsExported(fi.Decl.Name.Name) {
+		exported = "e"
+	}
+	return short(fi.Pkg.PkgPath) + "|" + recv + "|" + exported + "|" + short(types.TypeString(types.NewSignatureType(nil, nil, nil, sig.Params(), sig.Results(), sig.Variadic()), nil))
+}
+
+func (w *World) detectRenames() {
+	nameAlias = map[string]string{}
+	if !w.base.loaded {
+		return
+	}
+	bySig := map[string][]string{} // signature key -> new functions
+	for k, fi := range w.Funcs {
+		if !w.base.fns[k] && fi.Obj != nil {
+			bySig[funcSigKey(fi)] = append(bySig[funcSigKey(fi)], k)
+		}
+	}
+	missingBySig := map[string][]string{}
+	for k, sg := range w.base.sigs {
+		if w.Funcs[k] == nil {
+			missingBySig[sg] = append(missingBySig[sg], k)
+		}
+	}
+	for sg, news := range bySig {
+		if gone := missingBySig[sg]; len(news) == 1 && len(gone) == 1 {
+			nameAlias[news[0]] = gone[0]
+		}
+	}
+	if len(nameAlias) == 0 {
+		return
+	}
+	for nk, ok := range nameAlias {
+		fi := w.Funcs[nk]
+		delete(w.Funcs, nk)
+		fi.Key = ok
+		w.Funcs[ok] = fi
+	}
+	implCache = map[*types.Func][]string{}
+	w.newMemo, w.newSites, w.newRefs, w.astSites, w.newParams, w.reach = nil, nil, nil, nil, nil, nil
+	w.stats["functions_renamed_since_review"] = len(nameAlias)
 }
